@@ -200,6 +200,11 @@ int32_t matrixSslNewClientSession(ssl_t **ssl, const sslKeys_t *keys,
         return rc;
     }
     lssl->userPtr = options->userPtr;
+    if (sslSetClientOfferedSuites(lssl, cipherSpec, cipherSpecLen) < 0)
+    {
+        matrixSslDeleteSession(lssl);
+        return PS_MEM_FAIL;
+    }
 #ifdef USE_TLS_1_3
     /* Check if the first PSK has maxEarlyData > 0
        Note that the sid has higher priority */
@@ -2033,6 +2038,10 @@ L_REHANDSHAKE:
             options.extendedMasterSecret = -1;
         }
 
+        if (sslSetClientOfferedSuites(ssl, cipherSpec, cipherSpecLen) < 0)
+        {
+            return PS_MEM_FAIL;
+        }
         if ((rc = matrixSslEncodeClientHello(ssl, &sbuf, cipherSpec,
                  cipherSpecLen, &reqLen, ssl->userExt, &options)) < 0)
         {
